@@ -68,3 +68,8 @@ pub fn parse_dir(s: &str) -> FftDirection {
         _ => panic!("bad direction"),
     }
 }
+
+/// the planner kinds that construct under the current CPU-feature mask and cargo features
+pub fn avail() -> Vec<Kind> {
+    Kind::ALL.iter().copied().filter(|&k| AnyPlanner::<f32>::new(k).is_some()).collect()
+}
